@@ -6,7 +6,7 @@ cd "$W" || exit 2
 git diff -- src > patch.diff.check
 echo "== suite with change"; PYTHONPATH=$W/src /venv/bin/python -m pytest -q -p no:cacheprovider --timeout=900 2>&1 | tail -1
 echo "== demo with change"; PYTHONPATH=$W/src /venv/bin/python demo.py > demo.with.out 2>&1; echo "exit=$?"; tail -3 demo.with.out
-git stash -q -- src
+git diff -- src > .vs.diff; git apply -R .vs.diff
 echo "== demo without change"; PYTHONPATH=$W/src /venv/bin/python demo.py > demo.without.out 2>&1; echo "exit=$?"; tail -2 demo.without.out
-git stash pop -q
+git apply .vs.diff
 git diff --stat -- src | tail -1
